@@ -2309,6 +2309,14 @@ escape_u8:
                 string_state_ = parse_string_state::escape_u8;
                 return cur;
             }
+            if (JSONCONS_UNLIKELY(!unicode_traits::is_low_surrogate(cp2_)))
+            {
+                err_handler_(json_errc::expected_codepoint_surrogate_pair, *this);
+                ec = json_errc::expected_codepoint_surrogate_pair;
+                more_ = false;
+                string_state_ = parse_string_state::escape_u8;
+                return cur;
+            }
             uint32_t cp = 0x10000 + ((cp_ & 0x3FF) << 10) + (cp2_ & 0x3FF);
             unicode_traits::convert(&cp, 1, buffer_);
             sb = ++cur;
